@@ -712,6 +712,10 @@ class Gen:
         k = self.pick(choices)
         self.tags.add("g:" + k)
         if k == "const":
+            if r.random() < 0.4:  # one entry of a (non-square) tensor constant: row-major flattening
+                sh = [(2, 3), (3, 2), (3,), (2, 2, 3)][int(r.integers(4))]
+                self.tags.add("g:tensor_const")
+                return self.constant(sh)[tuple(int(r.integers(n)) for n in sh)]
             return self.constant()
         if k == "lit":
             return float(np.round(r.uniform(0.5, 2.0), 3))
@@ -978,12 +982,13 @@ def packing(c, seed=(0,), ncoef=6, nconst=3, arity=1, use_dS=True, mode="subsets
     consts = []
     coefs = []
     order = list(rng.permutation(ncoef + nconst))
-    shapes = [(), (c.gdim,), (c.gdim, c.gdim)]
+    # constant shapes include non-square tensors and rank 3 (row-major flattening is only visible when extents differ)
+    shapes = [(), (c.gdim,), (c.gdim, c.gdim), (2, 3), (3, 2), (2, 3, 2)]
     for o in order:
         if o < ncoef:
             coefs.append(Coefficient(c.space(els[int(rng.integers(len(els)))])))
         else:
-            consts.append(Constant(c.mesh, shape=shapes[int(rng.integers(3))]))
+            consts.append(Constant(c.mesh, shape=shapes[int(rng.integers(len(shapes)))]))
     V = c.V("Lagrange", 1)
     u, v = TrialFunction(V), TestFunction(V)
 
@@ -993,7 +998,10 @@ def packing(c, seed=(0,), ncoef=6, nconst=3, arity=1, use_dS=True, mode="subsets
             return R(f)
         if len(sh) == 1:
             return R(f)[0] + 0.5 * R(f)[sh[0] - 1]
-        return R(f)[0, 0] + R(f)[sh[0] - 1, 0]
+        if len(sh) == 2:
+            return R(f)[0, 0] + R(f)[sh[0] - 1, 0] + 0.25 * R(f)[sh[0] - 1, sh[1] - 1]
+        last = tuple(n - 1 for n in sh)
+        return R(f)[(0,) * len(sh)] + R(f)[(sh[0] - 1,) + (0,) * (len(sh) - 1)] + 0.25 * R(f)[last] + 0.125 * R(f)[(0, sh[1] - 1) + (0,) * (len(sh) - 2)]
 
     def integrand(sub_co, sub_k, R=lambda e: e):
         e = 1.0
@@ -1088,10 +1096,34 @@ def complex_ops(c, which=0):
     if which == 7:
         g = Coefficient(V)
         return inner(g, f * v) * dx + u * ufl.conj(k * f * v) * dx if False else inner(g, f * v) * dx
+    if which == 8:
+        # powers of a complex base with real, non-integer exponents (cpow, not pow of the real part)
+        return (f ** 2.5 + (f * f + 2j) ** 1.5 + sqrt(f) + abs(f) ** 0.5) * inner(u, v) * dx
+    if which == 9:
+        # literal non-integer exponents only: UFL's degree estimation recurses without end on non-constant exponents
+        return inner(f ** 1.5 + (f + 1j) ** 0.5 + (k * f) ** 2.5 + (c.x[0] + f) ** 0.75 + ufl.conj(f) ** 1.25, v) * dx
     if which == 5:
         n = c.n
         return (inner(jump(u), jump(v)) + (0.5 + 1j) * inner(avg(grad(u)), n("+")) * ufl.conj(jump(v)) + f("+") * ufl.conj(f("-")) * inner(u("+"), v("-"))) * dS
     raise ValueError(which)
+
+
+@builder
+def diag_dropped(c, what="constant"):
+    """Taylor-Hood bilinear form in which a constant (or a coefficient) occurs only in an off-diagonal block and another one,
+    created later, in a diagonal block (part='diagonal' compiles the diagonal blocks only)."""
+    W = c.space(basix.ufl.mixed_element([c.el("Lagrange", 2, shape=(c.gdim,)), c.el("Lagrange", 1)]))
+    u, p_ = ufl.split(TrialFunction(W))
+    v, q = ufl.split(TestFunction(W))
+    Q = c.V("Lagrange", 1)
+    c0, c1 = Constant(c.mesh), Constant(c.mesh)
+    w0, w1 = Coefficient(Q), Coefficient(Q)
+    a = inner(grad(u), grad(v)) * dx
+    if what == "constant":
+        a += c0 * inner(div(u), q) * dx + c1 * inner(p_, q) * dx
+    else:
+        a += w0 * inner(p_, div(v)) * dx + (1.0 + w1 * w1) * inner(u, v) * dx + inner(p_, q) * dx
+    return a
 
 
 @builder
